@@ -30,6 +30,8 @@ func init() {
 			{"C16.R5", "q", "value hash computed after the body is in place", c16r5},
 			{"C10.R8", "q", "shared: value hashes are taken over decompressed bytes", c10r8},
 			{"C10.R2", "q", "shared: decompress before hashing in rebuild", c10r2},
+			{"C10.R1", "q", "shared: value hash before compression", c10r1},
+			{"C09.R2", "q", "shared: CRC coverage of key and value", c09r2},
 		},
 	})
 }
